@@ -195,7 +195,28 @@ def c15(res):
                       "independent numeric executor")
 
 
-CHECKS = {"C01": c01, "C02": c02, "C04": c04, "C10": c10, "C15": c15, "C20": c20}
+def c14(res):
+    wd = workdir("C14")
+    q = res.tier == "quick"
+    res.models.append(model_check("VarBind", "VarBind_mc.cfg", wd, workers=8))
+    cases = os.path.join(wd, "cases.out")
+    res.gens.append(generate("VarBind", "VarBindGen_quick.cfg" if q else "VarBindGen_thorough.cfg", wd, cases, workers=4))
+    trace = os.path.join(wd, "trace.ndjson")
+    if not run_recorder(res, "c14", [cases, res.tier, trace], wd):
+        return res.finish("recorder crashed")
+    n, rej = validate("Trace_C14", trace, wd, timeout=3000)
+    res.validated = n - len(rej)
+    res.evaluations = n
+    res.samples = sample_lines(trace, maxlen=3000)
+    res.add_rejects(trace, rej, lambda r, f: "backend=%s kind=%s simplified=%s mat=%s fails=%s" % (r.get("backend"), r.get("kind"), r.get("simplified"), r.get("mname"), "+".join(f)))
+    res.assumptions = ["values and transforms are integers, so the expected value is exact; float transforms are covered by C03/C05/C06"]
+    return res.finish("every (encounter order, supplied set) of the VarBind.tla model within the bound, realised as weighted sums with "
+                      "distinct prime weights in three nestings, with integer affine / projective transforms, for VM and JIT, four "
+                      "evaluator kinds, before and after simplification, plus functions with dozens of free variables; "
+                      "a case = one shape evaluation")
+
+
+CHECKS = {"C01": c01, "C02": c02, "C04": c04, "C10": c10, "C14": c14, "C15": c15, "C20": c20}
 
 
 def replay(prop, path):
